@@ -28,13 +28,13 @@ SELECT = {
 }
 # known findings: (id, regex over the obligation names it covers).  Each region is exact: the empty-frame obligations are refuted only
 # for len(frame) == 0 (their `[frame with rows]` / non-None siblings are PROVED), the fmd=None run has no other refutation, the
-# truncation obligation names the raise it is about.
+# truncation finding was repaired in /repo (4f80931, record fixed-C02-summary-truncated-before-validation): `fixed` records suppress
+# nothing, write_common_metadata[..].raises_only_before_the_file_is_opened[key or value not text] must be PROVED.
 KNOWN = {
     "C02": [
         (M.FID_EMPTY, re.compile(r"file_is_a_complete_parquet_file\[any frame\]$|part\.file_opened_is_written_as_a_part_file\[any frame\]$|"
                                  r"^write_multi\[.*partition_on=no\]\.(no_attr_of_None\[rg\.columns\]|row_group_appended_is_not_None\[.*\])$")),
         (M.FID_NOFMD, re.compile(r"^make_part_file\[fmd=None\]\.(footer_serialisation_does_not_raise|write_thrift\.no_iteration_over_None\[obj\.key_value_metadata\])$")),
-        (M.FID_TRUNC, re.compile(r"^write_common_metadata\[.*\]\.raises_only_before_the_file_is_opened\[key or value not text\]$")),
     ],
     "C07": [(M.FID_EMPTY_C07, _EMPTY_C07)],
 }
